@@ -66,6 +66,7 @@ static void genCommon(vf::Rng &r, Plan &p, bool outbound)
   p.stallAtRace = r.chance(0.6);
   bool rmKind = p.kind == K_OUT_PLAIN || p.kind == K_IN_PLAIN || p.kind == K_U_IN || p.kind == K_U_OUT || p.kind == K_U_VIA;
   p.rm = rmKind && r.chance(0.3);
+  p.rmLeaveDisabled = false;
   p.rmPartialDrain = r.chance(0.55); p.rmDisabledFlip = r.chance(0.2); p.rmLiveFlush = r.chance(0.3); p.rmOverlap = r.chance(0.3);
   if (p.rm)
   {
@@ -200,12 +201,15 @@ static void runHistory(uint64_t seed, uint64_t idx)
   // --dirty-restart 0 restarts TCP transports only from a clean stop (no session left for shutdownDrain): before fix
   // 40be124 a stop() with open sessions left stale fd tags behind and the restarted engine used freed sessions.
   const bool cleanRestart = !H.udp && phases == 2 && !gDirtyRestart;
+  // how the transport ends: 0 stop() then destroy; 1 the last owner is dropped on an application thread while it is
+  // running with open sessions; 2 the last owner is dropped from inside a callback (deferred self-destruct)
+  const int tdKind = pickW(rng, std::vector<std::pair<int, double>>{{0, 62}, {1, 26}, {2, 12}});
   if (cleanRestart) H.reconnectOnClose = false;
   {
     std::ostringstream d;
     d << (H.udp ? "udp" : "tcp") << " idleGc=" << H.idleGcCfg << " hiResTimers=" << H.hiResTimers << " et=" << c.useEdgeTriggered << " batch=" << c.batching.enabled
       << " tls=" << H.tls << " bp=" << bp << " wstall=" << wstall << " cto=" << H.connectToMs << " hto=" << H.handshakeToMs << " reconnect=" << H.reconnectOnClose
-      << " phases=" << phases;
+      << " phases=" << phases << " teardown=" << tdKind;
     H.cfgDesc = d.str();
   }
   H.T = H.udp ? Transport::udp(c) : Transport::tcp(c);
@@ -257,6 +261,26 @@ static void runHistory(uint64_t seed, uint64_t idx)
     bool stopAfterActors = rng.chance(0.45);
     double stopAtMs = maxEst * (0.05 + 0.95 * double(rng.below(1000)) / 1000.0);
     bool hammer = rng.chance(0.3);
+    const bool destroyRunning = tdKind != 0 && ph == phases - 1;
+    if (destroyRunning)
+    {
+      // sessions still open at the teardown, a seeded majority of them with user data and observers, in Async, Sync and Disabled mode
+      stopAfterActors = true; hammer = false;
+      for (auto &p : plans)
+      {
+        bool est = p.kind == K_OUT_PLAIN || p.kind == K_IN_PLAIN || p.kind == K_OUT_TLS_PEER || p.kind == K_IN_TLS_CLIENT || p.kind == K_OUT_SELF_PLAIN ||
+                   p.kind == K_OUT_SELF_TLS || p.kind == K_U_IN || p.kind == K_U_OUT || p.kind == K_U_VIA || p.kind == K_U_SHARED_PEER;
+        if (!est || !rng.chance(0.65)) continue;
+        p.end = E_STOP; if (p.cb) { p.cb->planEnd = E_STOP; p.cb->closeAtAnnounce = p.cb->closeAtData = false; }
+        if (rng.chance(0.8)) { p.actObs = std::max(p.actObs, 1); p.actUnobs = 0; p.actUd = true; p.racyUd = false; if (p.cb && p.cb->udCallbacks) p.cb->udAtAnnounce = true; }
+        bool rmKind = p.kind == K_OUT_PLAIN || p.kind == K_IN_PLAIN || p.kind == K_U_IN || p.kind == K_U_OUT || p.kind == K_U_VIA;
+        if (rmKind && rng.chance(0.45))
+        {
+          p.rm = true; p.rmOverlap = false; p.rmLeaveDisabled = rng.chance(0.4);
+          p.actUd = true; if (p.cb) { p.cb->udCallbacks = false; p.cb->udAtAnnounce = p.cb->udAtData = p.cb->udAtClose = false; }
+        }
+      }
+    }
     if (cleanRestart && ph == 0)
     {
       for (auto &p : plans) if (p.end == E_STOP) { p.end = E_APP; if (p.cb) p.cb->planEnd = E_APP; }
@@ -324,17 +348,85 @@ static void runHistory(uint64_t seed, uint64_t idx)
       H.stopBeginSeq = stamp();
     }
     H.stopping = true;
-    H.T->stop();
+    if (!destroyRunning) H.T->stop();
+    else
+    {
+      {
+        // the application keeps context on its sessions: give most open sessions that have none an observer and user data
+        std::vector<uint64_t> bare;
+        { std::lock_guard<std::mutex> g(H.mu); for (auto &kv : H.sess) if (kv.second.ann && !kv.second.closes && kv.second.uds.empty() && !(kv.second.plan && kv.second.plan->udCallbacks)) bare.push_back(kv.first); }
+        for (uint64_t sid : bare) if (rng.chance(0.7)) { if (rng.chance(0.6)) H.addObserver(sid, RC_ACTOR, rng.next()); H.setUserData(sid, RC_ACTOR); }
+      }
+      {
+        std::lock_guard<std::mutex> g(H.mu);
+        int withUd = 0, open = 0;
+        for (auto &kv : H.sess) if (kv.second.ann && !kv.second.closes) { open++; for (UdRec *u : kv.second.uds) if (u->regEnd) { withUd++; break; } }
+        H.count("teardown_open_sessions", uint64_t(open)); H.count("teardown_open_sessions_with_userdata", uint64_t(withUd));
+      }
+      bool dropped = false;
+      if (tdKind == 2)
+      {
+        { std::lock_guard<std::mutex> g(H.mu); H.doomOwner = std::move(H.T); H.T.reset(); }
+        H.doomArmed = true;
+        for (int i = 0; i < 60 && !H.doomDone.load(); i++) { H.poke(); sleepMs(50); }
+        if (H.doomDone.load()) dropped = true;
+        else
+        {
+          // no data callback came (poke session gone): take the owner back and drop it here instead
+          std::shared_ptr<Transport> o;
+          { std::lock_guard<std::mutex> g(H.mu); o = std::move(H.doomOwner); H.doomOwner.reset(); }
+          H.doomArmed = false;
+          if (o) { H.Traw = nullptr; H.countL("teardown_drop_last_owner_user_thread"); H.countL("teardown_in_callback_fell_back"); o.reset(); dropped = true; }
+          else dropped = true; // the callback got it after all
+        }
+      }
+      else
+      {
+        H.Traw = nullptr;
+        std::shared_ptr<Transport> o = std::move(H.T); H.T.reset();
+        H.countL("teardown_drop_last_owner_user_thread");
+        o.reset(); // ~Transport here, while running, with sessions open
+        dropped = true;
+      }
+      (void)dropped;
+      // the monitor outlives the transport: wait until its callback storage is gone (deferred on the self-destruct path)
+      while (!H.implGone.load()) sleepMs(2);
+    }
     { std::lock_guard<std::mutex> g(H.mu); H.stopEndSeq = stamp(); }
     H.stopDone = true; H.cv.notify_all();
     wdSet(idx, "phase" + std::to_string(ph) + ":join");
     if (hammerTh.joinable()) hammerTh.join();
     for (auto &t : th) t.join();
     if (H.pokeFd >= 0) { close(H.pokeFd); H.pokeFd = -1; }
-    H.finalizePhase(ph == 0 ? "first-run" : "after-restart");
+    H.finalizePhase(destroyRunning ? "destroyed-while-running" : ph == 0 ? "first-run" : "after-restart", !destroyRunning);
   }
   wdSet(idx, "destroy");
+  H.Traw = nullptr;
   H.T.reset();
+  while (!H.implGone.load() && !harnessTrouble) sleepMs(1);
+  {
+    // conservation after the transport object is gone: every cleanup registered on an announced, closed session before its close
+    // (and not replaced) has run exactly once - nothing can run any more
+    std::lock_guard<std::mutex> g(H.mu);
+    uint64_t reg = 0, ran = 0;
+    for (auto &kv : H.sess)
+    {
+      Sess &S = kv.second;
+      if (!S.ann || !S.closes) continue;
+      UdRec *cur = nullptr; bool racy = false;
+      for (UdRec *u : S.uds)
+      {
+        bool inFan = (u->ctx == RC_GLOBALCLOSE || u->ctx == RC_OBSERVER) && u->regFanSid == S.id;
+        if ((u->regEnd && u->regEnd < S.closeSeq) || inFan) { if (!cur || u->regEnd > cur->regEnd) cur = u; } else racy = true;
+      }
+      if (!cur || racy) continue;
+      reg++; ran += cur->fired ? 1 : 0;
+      if (cur->fired != 1 && S.finalized)
+        H.viol(H.K("fanout:cleanup-not-run-by-transport-destruction"), "user data registered with a cleanup on an announced session: the cleanup had not run exactly once when the transport object was gone", &S,
+               "\"fired\":" + std::to_string(cur->fired) + ",\"teardown\":" + std::to_string(tdKind));
+    }
+    H.count("cleanup_conservation_registered", reg); H.count("cleanup_conservation_ran", ran);
+  }
   wdClear(idx);
 
   // ---- evidence
